@@ -38,6 +38,7 @@ type pipe struct {
 	onWrite func(n int)         // delay/yield hook, called before appending (outside lock)
 	capture []byte              // copy of everything ever written (if keep)
 	keep    bool
+	failErr error // when set, Write fails with it (a write deadline that expired on a stalled peer, EPIPE)
 }
 
 func newPipe() *pipe {
@@ -65,6 +66,10 @@ func Pair() (*Conn, *Conn) {
 	b := &Conn{rd: ab, wr: ba, name: "b", closeCh: make(chan struct{})}
 	return a, b
 }
+
+// FailWrites makes every later Write on this end fail with err (nil restores normal service) while reads go on as before -
+// what a socket does whose write deadline keeps expiring because the peer has stopped reading.
+func (c *Conn) FailWrites(err error) { c.wr.mu.Lock(); c.wr.failErr = err; c.wr.mu.Unlock() }
 
 // LogWrites makes the conn remember every Write call made on it (offset, length).
 func (c *Conn) LogWrites() { c.wr.mu.Lock(); c.wr.logW = true; c.wr.mu.Unlock() }
@@ -153,6 +158,9 @@ func (c *Conn) Write(p []byte) (int, error) {
 	defer w.mu.Unlock()
 	if w.wclosed || w.rclosed {
 		return 0, errClosed
+	}
+	if w.failErr != nil {
+		return 0, w.failErr
 	}
 	if w.logW {
 		w.writes = append(w.writes, WriteRec{Off: w.total, Len: len(p)})
